@@ -1,4 +1,5 @@
 import Operon.Lemmas.C07
+import Operon.Lemmas.CfflPhase
 import Operon.Gen.GateTable
 /-!
 # C07 — two-key guard: an action passes only with the approvals its gate logic requires
@@ -341,6 +342,216 @@ theorem c07_unblocked_reply_traces_to_verdicts (cfg : Cfg) (H : Hashes) (ops : L
     have := fromGate p' z y (by simpa using hb)
     exact ⟨o', List.mem_append_left _ ho'1, p, zr, yr, p', z, y, hop, hop', hmd, this.1, this.2.1, this.2.2, rfl⟩
 
+/-! ### overlapping requests (re-entrant agents, a second thread while an agent is busy)
+
+The statements above are about sequential histories (`exec`: one request is handled completely before the next
+starts).  The code's `run` is not atomic: while an agent of request A is busy, a request B can be handled on the
+same loop.  `execPhases` runs ANY interleaving of the phases of any number of requests (look-up · executor
+consulted · assessor consulted · finish / agent raised), with clock advances, resets and cache clears anywhere in
+between; no well-formedness of the interleaving is assumed.  The clauses of the property hold for every reply of
+every such history, each request being judged by ITS OWN prompt and verdicts. -/
+
+/-- Sequential histories are phase histories: for every history there is a phase history (each request's phases
+    consecutive) with the same final state and the same replies in the same order.  So the theorems about
+    `execPhases` below subsume their sequential counterparts. -/
+theorem c07_overlap_model_contains_sequential (cfg : Cfg) (H : Hashes) (ops : List Op) (s : State) :
+    (execPhases cfg H s (phasesOf cfg H s ops)).1 = (exec cfg H s ops).1 ∧
+    phaseReplies (execPhases cfg H s (phasesOf cfg H s ops)).2 = replies (exec cfg H s ops).2 :=
+  exec_is_execPhases cfg H ops s
+
+/-- In every history of overlapping requests, a reply that is not served from the cache and is not blocked is the
+    reply of the finish phase of a request whose OWN two verdicts satisfy the configured gate logic (whatever other
+    requests were handled in between); it is the gate's SUCCESS result for this prompt and these verdicts, and it
+    carries a token exactly when this request's assessor verdict is PERMIT — bound to the hash of this prompt,
+    issued by the assessor. -/
+theorem c07_overlap_unblocked_only_if_own_verdicts (cfg : Cfg) (H : Hashes) (ops : List PhaseOp) (s : State) :
+    ∀ o ∈ (execPhases cfg H s ops).2, ∀ k r, o.out = some ⟨k, some r⟩ → r.cached = false → r.blocked = false →
+      ∃ p z y, o.op = .finish p z y ∧ criterion cfg.gate z y = true ∧ r = gateResult H cfg.gate p z y ∧
+        r.success = true ∧ r.action = .success ∧
+        (r.token = if y = .permit then some ⟨H.sha p.id, .assessor⟩ else none) := by
+  have key := execPhases_forall cfg H (fun _ => True)
+    (fun o => ∀ k r, o.out = some ⟨k, some r⟩ → r.cached = false → r.blocked = false →
+      ∃ p z y, o.op = .finish p z y ∧ criterion cfg.gate z y = true ∧ r = gateResult H cfg.gate p z y ∧
+        r.success = true ∧ r.action = .success ∧
+        (r.token = if y = .permit then some ⟨H.sha p.id, .assessor⟩ else none)) ?_ ops s trivial
+  · exact key.2
+  · intro s op _
+    refine ⟨trivial, ?_⟩
+    intro k r hout hc hb
+    rcases phaseStep_out cfg H s op _ hout with h | h | h | ⟨p, z, y, hop, _, h⟩ | ⟨p, _, e, _, _, h⟩
+    · cases h; simp [circuitOpenResult] at hb
+    · cases h
+    · cases h; simp [errorResult] at hb
+    · simp only [Out.mk.injEq, Option.some.injEq] at h
+      obtain ⟨_, hr⟩ := h
+      subst hr
+      have hb' : (applyGate cfg.gate z y).blocked = false := by simpa [gateResult] using hb
+      have hs := (c07_gate_result_shape cfg.gate z y).1 hb'
+      refine ⟨p, z, y, hop, (c07_gate_sound cfg.gate z y).mp hb', rfl, by simpa [gateResult] using hs.1,
+        by simpa [gateResult] using hs.2, ?_⟩
+      simp only [gateResult]
+      revert hb'
+      generalize cfg.gate = g
+      cases g <;> cases z <;> cases y <;> simp [applyGate, errorOut]
+    · simp only [Out.mk.injEq, Option.some.injEq] at h
+      obtain ⟨_, hr⟩ := h
+      subst hr
+      simp at hc
+
+/-- In every history of overlapping requests from the initial state, every reply that is not blocked — fresh or
+    served from the cache — is a SUCCESS built by the gate for verdicts that satisfy the configured gate logic,
+    and a token on it means an assessor verdict PERMIT and names the assessor. -/
+theorem c07_overlap_history_sound (cfg : Cfg) (H : Hashes) (ops : List PhaseOp) :
+    ∀ o ∈ (execPhases cfg H init ops).2, ∀ k r, o.out = some ⟨k, some r⟩ → r.blocked = false →
+      ∃ z y, criterion cfg.gate z y = true ∧ r.success = true ∧ r.action = .success ∧
+        (∀ t, r.token = some t → y = .permit ∧ t.issuer = .assessor) := by
+  have gate_case : ∀ (q : Prompt) (z y : Cls) (c : Bool),
+      ({ gateResult H cfg.gate q z y with cached := c }).blocked = false →
+      ∃ z' y', criterion cfg.gate z' y' = true ∧ ({ gateResult H cfg.gate q z y with cached := c }).success = true ∧
+        ({ gateResult H cfg.gate q z y with cached := c }).action = .success ∧
+        (∀ t, ({ gateResult H cfg.gate q z y with cached := c }).token = some t → y' = .permit ∧ t.issuer = .assessor) := by
+    intro q z y c hb
+    have hb' : (applyGate cfg.gate z y).blocked = false := by simpa [gateResult] using hb
+    have hs := (c07_gate_result_shape cfg.gate z y).1 hb'
+    refine ⟨z, y, (c07_gate_sound cfg.gate z y).mp hb', by simpa [gateResult] using hs.1,
+      by simpa [gateResult] using hs.2, ?_⟩
+    intro t ht
+    simp only [gateResult] at ht
+    revert ht hb'
+    generalize cfg.gate = g
+    cases g <;> cases z <;> cases y <;> simp [applyGate, errorOut] <;> intro h <;> subst h <;> rfl
+  have key := execPhases_forall cfg H (fun s => CacheOK cfg H s.cache)
+    (fun o => ∀ k r, o.out = some ⟨k, some r⟩ → r.blocked = false →
+      ∃ z y, criterion cfg.gate z y = true ∧ r.success = true ∧ r.action = .success ∧
+        (∀ t, r.token = some t → y = .permit ∧ t.issuer = .assessor)) ?_ ops init (by intro e he; simp [init] at he)
+  · exact key.2
+  · intro s op hinv
+    refine ⟨phaseStep_cacheOK cfg H s op hinv, ?_⟩
+    intro k r hout hb
+    rcases phaseStep_out cfg H s op _ hout with h | h | h | ⟨p, z, y, _, _, h⟩ | ⟨p, _, e, he, _, h⟩
+    · cases h; simp [circuitOpenResult] at hb
+    · cases h
+    · cases h; simp [errorResult] at hb
+    · simp only [Out.mk.injEq, Option.some.injEq] at h
+      obtain ⟨_, hr⟩ := h
+      subst hr
+      exact gate_case p z y false hb
+    · simp only [Out.mk.injEq, Option.some.injEq] at h
+      obtain ⟨_, hr⟩ := h
+      subst hr
+      obtain ⟨q, z, y, _, hres⟩ := hinv e he
+      rw [hres] at hb ⊢
+      exact gate_case q z y true hb
+
+/-- Token binding under overlap: if the cache key is injective on prompts, then in every history of overlapping
+    requests from the initial state a token that comes back — at the finish phase of the request for `p`, or from
+    the cache at the look-up of `p` — is bound to the hash of exactly `p` and names the assessor.  (The finish
+    phase files its result under its OWN prompt's key; a request that filed it under the key of whichever look-up
+    came last would break this.) -/
+theorem c07_overlap_token_binds_request (cfg : Cfg) (H : Hashes) (hinj : ∀ a b, H.md5 a = H.md5 b → a = b)
+    (ops : List PhaseOp) :
+    ∀ o ∈ (execPhases cfg H init ops).2, ∀ p k r t,
+      (o.op = .lookup p ∨ ∃ z y, o.op = .finish p z y) → o.out = some ⟨k, some r⟩ → r.token = some t →
+      t.hash = H.sha p.id ∧ t.issuer = .assessor := by
+  have gate_tok : ∀ (q : Prompt) (z y : Cls) (t : Token), (gateResult H cfg.gate q z y).token = some t →
+      t.hash = H.sha q.id ∧ t.issuer = .assessor := by
+    intro q z y t ht
+    simp only [gateResult] at ht
+    split at ht
+    · cases ht; exact ⟨rfl, rfl⟩
+    · cases ht
+  have key := execPhases_forall cfg H (fun s => CacheOK cfg H s.cache)
+    (fun o => ∀ p k r t, (o.op = .lookup p ∨ ∃ z y, o.op = .finish p z y) → o.out = some ⟨k, some r⟩ →
+      r.token = some t → t.hash = H.sha p.id ∧ t.issuer = .assessor) ?_ ops init (by intro e he; simp [init] at he)
+  · exact key.2
+  · intro s op hinv
+    refine ⟨phaseStep_cacheOK cfg H s op hinv, ?_⟩
+    intro p k r t hop hout ht
+    rcases phaseStep_out cfg H s op _ hout with h | h | h | ⟨p', z, y, hop', _, h⟩ | ⟨p', hop', e, he, hk, h⟩
+    · cases h; simp [circuitOpenResult] at ht
+    · cases h
+    · cases h; simp [errorResult] at ht
+    · simp only [Out.mk.injEq, Option.some.injEq] at h
+      obtain ⟨_, hr⟩ := h
+      subst hr
+      have hp : p' = p := by
+        simp only at hop
+        rcases hop with hop | ⟨z', y', hop⟩ <;> rw [hop'] at hop <;> cases hop
+        rfl
+      rw [← hp]
+      exact gate_tok p' z y t ht
+    · simp only [Out.mk.injEq, Option.some.injEq] at h
+      obtain ⟨_, hr⟩ := h
+      subst hr
+      have hp : p' = p := by
+        simp only at hop
+        rcases hop with hop | ⟨z', y', hop⟩ <;> rw [hop'] at hop <;> cases hop
+        rfl
+      obtain ⟨q, z, y, hkey, hres⟩ := hinv e he
+      have hq : q.id = p'.id := hinj _ _ (by rw [← hkey, hk])
+      rw [hres] at ht
+      have := gate_tok q z y t (by simpa using ht)
+      rw [hq, hp] at this
+      exact this
+
+/-- Cached replies are identical in verdict to the original, under overlap: in every history of overlapping
+    requests from the initial state, a reply that comes back with `cached = true` is given at the look-up of some
+    prompt `p`, and strictly earlier in the history the finish phase of a request whose prompt has the same cache
+    key produced — from that request's own verdicts — a reply with the same success, action, blocked flag and
+    token (only the `cached` flag differs). -/
+theorem c07_overlap_cached_verdict_identical (cfg : Cfg) (H : Hashes) (ops : List PhaseOp)
+    (tr1 tr2 : List PhaseObs) (o : PhaseObs) (k : Kind) (r : Result)
+    (hsplit : (execPhases cfg H init ops).2 = tr1 ++ o :: tr2)
+    (hr : o.out = some ⟨k, some r⟩) (hc : r.cached = true) :
+    ∃ p, o.op = .lookup p ∧ ∃ o' ∈ tr1, ∃ (p' : Prompt) (z y : Cls) (ev : BEvent) (r' : Result),
+      o'.op = .finish p' z y ∧ H.md5 p'.id = H.md5 p.id ∧ o'.out = some ⟨.gated ev, some r'⟩ ∧
+      r' = gateResult H cfg.gate p' z y ∧ r'.cached = false ∧
+      r.success = r'.success ∧ r.action = r'.action ∧ r.blocked = r'.blocked ∧ r.token = r'.token := by
+  -- a reply flagged `cached` is a cache hit
+  have hmem : o ∈ (execPhases cfg H init ops).2 := by rw [hsplit]; simp
+  have hkind : k = .cacheHit := by
+    have key := execPhases_forall cfg H (fun _ => True)
+      (fun o => ∀ k r, o.out = some ⟨k, some r⟩ → r.cached = true → k = .cacheHit) ?_ ops init trivial
+    · exact key.2 o hmem k r hr hc
+    · intro s op _
+      refine ⟨trivial, ?_⟩
+      intro k r hout hc
+      rcases phaseStep_out cfg H s op _ hout with h | h | h | ⟨p, z, y, _, _, h⟩ | ⟨p, _, e, _, _, h⟩
+      · cases h; simp [circuitOpenResult] at hc
+      · cases h
+      · cases h; simp [errorResult] at hc
+      · simp only [Out.mk.injEq, Option.some.injEq] at h
+        obtain ⟨_, hr⟩ := h
+        subst hr
+        simp [gateResult] at hc
+      · simp only [Out.mk.injEq] at h
+        exact h.1
+  subst hkind
+  obtain ⟨p, hop, o', ho', p', z, y, ev, r', hop', hmd, hout', hc', hres⟩ :=
+    execPhases_originals cfg H ops init [] (by intro e he; simp [init] at he) tr1 tr2 o r hsplit hr
+  have ho'1 : o' ∈ tr1 := by simpa using ho'
+  -- the original is the gate's result for its own prompt and verdicts
+  have hgate : r' = gateResult H cfg.gate p' z y := by
+    have hmem' : o' ∈ (execPhases cfg H init ops).2 := by rw [hsplit]; exact List.mem_append_left _ ho'1
+    have key := execPhases_forall cfg H (fun _ => True)
+      (fun o => ∀ p z y ev r, o.op = .finish p z y → o.out = some ⟨.gated ev, some r⟩ → r = gateResult H cfg.gate p z y)
+      ?_ ops init trivial
+    · exact key.2 o' hmem' p' z y ev r' hop' hout'
+    · intro s op _
+      refine ⟨trivial, ?_⟩
+      intro p z y ev r hop hout
+      simp only at hop
+      subst hop
+      simp only [phaseStep, Option.some.injEq] at hout
+      rcases (finish_spec cfg H s p z y).1 with ⟨_, h⟩ | ⟨_, h⟩
+      · rw [h] at hout
+        simp only [Out.mk.injEq, Option.some.injEq] at hout
+        exact hout.2.symm
+      · rw [h] at hout; simp at hout
+  refine ⟨p, hop, o', ho'1, p', z, y, ev, r', hop', hmd, hout', hgate, hc', ?_⟩
+  subst hres
+  exact ⟨rfl, rfl, rfl, rfl⟩
+
 /-- The injectivity hypothesis of `c07_token_binds_request` is needed (and is the modelled assumption about the
     truncated md5 cache key): with a colliding key a reply for prompt 2 is served from prompt 1's entry and
     carries a token bound to prompt 1. -/
@@ -376,5 +587,16 @@ example : ((exec {} idHashes init [.run (pr 1) (.ret .execute) (.ret .permit), .
 /-- an un-encodable prompt: no reply with the cache on, a blocked ERROR when an agent raises with the cache off -/
 example : (run {} idHashes init ⟨9, false⟩ (.ret .execute) (.ret .permit)).2.result = none ∧
     (run { cacheOn := false } idHashes init ⟨9, false⟩ .exc (.ret .permit)).2.result = some errorResult := by decide
+
+/-- overlapping requests: A (prompt 1, executor BLOCK) looks up, B (prompt 2, EXECUTE / PERMIT) is handled
+    completely while A's executor is busy, A finishes last; then both prompts are asked again: each cached reply
+    repeats the reply of ITS OWN original (hypotheses of `c07_overlap_cached_verdict_identical` met by the last two
+    observations; `c07_overlap_unblocked_only_if_own_verdicts` by the finish of B) -/
+example : phaseReplies (execPhases {} idHashes init [.lookup (pr 1), .execCall, .lookup (pr 2), .execCall, .assessCall,
+      .finish (pr 2) .execute .permit, .assessCall, .finish (pr 1) .block .permit, .lookup (pr 2), .lookup (pr 1)]).2 =
+    [⟨.gated .success, some ⟨true, .success, false, some ⟨2, .assessor⟩, false⟩⟩,
+     ⟨.gated .neither, some ⟨true, .skipped, true, none, false⟩⟩,
+     ⟨.cacheHit, some ⟨true, .success, false, some ⟨2, .assessor⟩, true⟩⟩,
+     ⟨.cacheHit, some ⟨true, .skipped, true, none, true⟩⟩] := by decide
 
 end Operon.Cffl
